@@ -70,7 +70,7 @@ def spec(tier, seed, repo):
         "guess_pairs": 1500 if quick else 5000,
         "guess_accepted_equal": 250,
         "guess_rejected_unequal": 1000,
-        "guess_exhaustive_rows_exactly_one_accepted": 250,
+        "guess_exhaustive_rows_exactly_one_accepted": 160 if quick else 1000,
         "guess_pairs/tmcg/stackeq-vtmf/kappa=4": 256, "guess_pairs/tmcg/stackeq-qr/kappa=4": 256,
         "guess_pairs/tmcg/stackeq-vtmf/kappa=8": 80, "guess_pairs/tmcg/stackeq-vtmf/kappa=16": 80,
         "guess_pairs/tmcg/stackeq-qr/kappa=8": 80, "guess_pairs/tmcg/stackeq-qr/kappa=16": 80,
